@@ -280,6 +280,60 @@ def history_oracle(ops) -> Info:
     return Info(nontrivial=mutated_then_computed, classes=("mutated-buffer-recomputed" if mutated_then_computed else "no-mutation",))
 
 
+# --- several live check objects, forked by copy / deepcopy / pickle, fed alternately ---------------------------------------------------------
+
+obj_history_st = st.lists(
+    st.one_of(
+        st.tuples(st.just("new")),
+        st.tuples(st.just("feed"), st.integers(0, 7), st.binary(min_size=1, max_size=12)),
+        st.tuples(st.just("fork"), st.integers(0, 7), st.sampled_from(["copy", "deepcopy", "pickle"])),
+        st.tuples(st.just("feed-fcs"), st.integers(0, 7)),
+    ),
+    min_size=2,
+    max_size=24,
+)
+
+
+def obj_history_oracle(ops) -> Info:
+    """Model: the octets each object has been fed (a fork starts with its parent's octets). After every step EVERY live object must
+    report the reference checksum / is_good for its own octets - an object and its copy are independent from the fork on."""
+    import copy
+    import pickle
+
+    objs, fed = [FCS()], [b""]
+    forks = 0
+    for step, op in enumerate(ops):
+        kind = op[0]
+        if kind == "new":
+            objs.append(FCS())
+            fed.append(b"")
+        else:
+            i = op[1] % len(objs)
+            if kind == "feed":
+                for o in op[2]:
+                    guarded(objs[i].update, o, what="update")
+                fed[i] += bytes(op[2])
+            elif kind == "feed-fcs":  # complete the message with its own check sequence
+                tail = fcs16_octets(fed[i])
+                for o in tail:
+                    guarded(objs[i].update, o, what="update")
+                fed[i] += tail
+            elif kind == "fork" and len(objs) < 8:
+                how = op[2]
+                try:
+                    twin = copy.copy(objs[i]) if how == "copy" else (copy.deepcopy(objs[i]) if how == "deepcopy" else pickle.loads(pickle.dumps(objs[i])))
+                except Exception:  # noqa: BLE001 - an object that refuses to be copied this way is not judged
+                    continue
+                objs.append(twin)
+                fed.append(fed[i])
+                forks += 1
+        for j, (o, data) in enumerate(zip(objs, fed)):
+            want_good = len(data) >= 2 and fcs16_octets(data[:-2]) == data[-2:]
+            if o.checksum != fcs16(data) or bool(o.is_good) != want_good:
+                fail(f"step {step} ({op!r:.80}): object #{j} has been fed {data.hex()} and reports checksum {o.checksum:#06x} / is_good {o.is_good}; reference {fcs16(data):#06x} / {want_good}; history {ops[: step + 1]!r:.400}", sig="object-history")
+    return Info(nontrivial=forks > 0 and len(objs) > 2, classes=(f"forks:{min(forks, 3)}",))
+
+
 # --- windows longer than 64 KiB whose running register is exactly 0 at power-of-two block boundaries ---------------------------------
 
 
@@ -410,6 +464,7 @@ def build() -> Check:
             "after the buffer was mutated. zero-register-boundaries: windows of 256 B .. 192 KiB constructed so that the running register "
             "is exactly 0x0000 after every 2^k octets (k = 8..16)."
             ' first-operation: one fresh interpreter per case; every ordered pair (and single) of {static compute_checksum, object update/checksum, is_good, HdlcFrame check, reader} as the first FCS operations of the process x 5 data values, compared with the reference.'
+            ' object-histories: up to 8 live check objects created, fed, completed with their own check sequence and forked by copy.copy / copy.deepcopy / pickle in any order; after every step every object must report the reference checksum and is_good for the octets it (and its ancestors up to the fork) were fed.'
         ),
         assumptions=[
             "The reference is the bit-serial RFC 1662 algorithm in vlib/ref_fcs.py (no table).",
@@ -425,6 +480,7 @@ def build() -> Check:
             HypClause("isgood", _isgood, isgood_oracle, quick=20000, thorough=1000000),
             EnumClause("zero-register-boundaries", size=lambda t: len(ZERO_CASES), case_at=lambda i, t: ZERO_CASES[i], oracle=zero_boundary_oracle, doc="windows up to 192 KiB whose register is 0x0000 after every 2^k octets", exhaustive=False),
             EnumClause("first-operation", size=lambda t: len(_FIRST_CASES), case_at=lambda i, t: _FIRST_CASES[i], oracle=first_op_oracle, doc="fresh interpreter per case: every ordered pair (and single) of {static compute_checksum, object update/checksum, is_good, HdlcFrame check, reader} as the FIRST FCS operations of the process x 5 data values", exhaustive=False),
+            HypClause("object-histories", lambda: obj_history_st, lambda ops: obj_history_oracle([tuple(o) for o in ops]), quick=4000, thorough=100000, doc="several live check objects, forked by copy / deepcopy / pickle and fed alternately: each must follow the reference for its own octets"),
             HypClause("call-histories", history_st, lambda ops: history_oracle([tuple(o) for o in ops]), quick=10000, thorough=300000, doc="interleaved calls on bytes / in-place mutated bytearray buffers: no state may leak between calls"),
         ],
     )
